@@ -105,7 +105,7 @@ PROPS = {
         assumptions=['engine-level re-timestamping during rebuild and the join engine honouring the constraints are assumed'],
     ),
     'C16': dict(
-        units=['disp'],
+        units=['disp', 'swt'],
         kani_quick=[],
         kani_thorough=['id_axioms_u32', 'uf_reset', 'offsets_intersect_dense_dense', 'offsets_scan_for_offset', 'offsets_binary_search_from'],
         design_ref='DESIGN.md section 4 (U-DISP, U-SWT, U-OFF) and section 5 C16',
@@ -114,7 +114,9 @@ PROPS = {
                    'representation invariant (lookup_table is exactly the index of displaced, rows sorted by timestamp, displaced ids non-canonical, '
                    'union-find well-formed) and agrees with the abstract view: a row is appended exactly when two classes are merged, fast_subset returns '
                    'EXACTLY the rows satisfying the constraint, timestamp range search returns exactly the rows with that timestamp. Built on the verified '
-                   'UnionFind (same generated file, callers checked against its contracts). SortedWritesTable row store and hash shards are NOT covered.',
+                   'UnionFind (same generated file, callers checked against its contracts). For SortedWritesTable (unit swt): binary_search_sort_val returns exactly the row range of the run '
+                   'with the given sort value (or the partition point), and fast_subset on the sort column returns EXACTLY the rows whose sort value (timestamp) satisfies the constraint, '
+                   'over the offsets abstraction (runs of strictly increasing sort values and row ids). The row store, hash shards, insert/rehash/rebuild of SortedWritesTable are NOT covered.',
         level_note='Trusted: HashMap as a finite map (A-hash), [T]::binary_search_by_key specification for a total key closure (A-std), NumericId axioms, '
                    'UnionFind::reset (iterator adapters; assumed), OffsetRange::new debug_assert taken as precondition; merge()/get_row() (SegQueue, pool closures) not covered. '
                    'Trait impl `impl Table for DisplacedTable` emitted as inherent impl (R-INHERENT).',
